@@ -256,7 +256,9 @@ pub fn configs(tier: Tier) -> Vec<InCfg> {
                     // v5 server, Receive Maximum 1: also handler errors mapped to a negative acknowledgement - a QoS 2
                     // publish refused with PUBREC >= 0x80 is finished and must give its quota slot back (seeded change
                     // C19_r6 released the packet id but not the slot)
-                    outcomes: if ver == Ver::V5 && role == Role::Server && n == 1 && sz == 65535 { vec![GateOutcome::Ok, GateOutcome::Nack(0x87)] } else { vec![GateOutcome::Ok] },
+                    // (... whether the refusal comes out of the error mapping or is returned by a handler that succeeds with an
+                    // acknowledgement carrying an error code - seeded change C12_r13 only gave the slot back for the former)
+                    outcomes: if ver == Ver::V5 && role == Role::Server && n == 1 && sz == 65535 { vec![GateOutcome::Ok, GateOutcome::Nack(0x87), GateOutcome::OkCode(0x87)] } else { vec![GateOutcome::Ok] },
                     poutcomes: vec![GateOutcome::Ok],
                     cork: false,
                     judge: J_C12,
